@@ -12,6 +12,8 @@ RESET = 'state[event.tid][event.eventid] = []'
 APPEND_ALL = 'for eventid in state[event.tid]:\n    state[event.tid][eventid].append(event)'
 APPEND_ALL_SAFE = 'for eventid in state.get(event.tid, {}):\n    state[event.tid][eventid].append(event)'
 RETURN_IF_ABSENT = 'if event.tid not in state or event.eventid not in state[event.tid]:\n    return'
+ABSENT_TID = ('if event.tid not in state:\n    return', 'if event.tid not in state:\n    return None')
+ABSENT_EID = ('if event.eventid not in state[event.tid]:\n    return', 'if event.eventid not in state[event.tid]:\n    return None')
 POP = 'events = state[event.tid].pop(event.eventid)'
 DELIVER_EVENTS = 'return self.parse_event_list(events)'
 RETURN_NONE_IF_CONT = ('if event.func_qualifier == DgbFuncQual.DBG_FUNC_NONE.value and event.eventid in state.get(event.tid, {}):\n'
@@ -63,6 +65,9 @@ def _action(fn):
             out.append('PAppendAll true')
         elif text == RETURN_IF_ABSENT:
             out.append('PReturnIfAbsent')
+        elif text in ABSENT_TID and i + 1 < len(body) and ast.unparse(body[i + 1]) in ABSENT_EID:
+            out.append('PReturnIfAbsent')           # the same guard written as two early returns
+            i += 1
         elif text == POP and i + 1 < len(body) and ast.unparse(body[i + 1]) == DELIVER_EVENTS:
             out.append('PPopDeliver')
             i += 1
